@@ -13,7 +13,7 @@ use crate::core::{Scenario, Tier};
 use runner::PropInfo;
 
 fn scenarios() -> Vec<Box<dyn Scenario>> {
-    vec![Box::new(scen::flow::Flow)]
+    vec![Box::new(scen::flow::Flow), Box::new(scen::rxsim::RxSim)]
 }
 
 const COMMON_ASSUMPTIONS: &[&str] = &[
